@@ -146,8 +146,30 @@ Section Model.
     let s2 := add_real (ni n) vi (negb tr) tr (add_real (nr n) vr (negb tr) tr s) in
     set_cplx (dset n pf (cplx s2)) s2.
 
-  (* set_fix (variable.py:415); [vb] = Bound.get_y2x(value), used when the name is bounded *)
+  (* set_fix (variable.py:415); [vb] = Bound.get_y2x(value), used when the name is bounded.
+     The free list is handled through the shared object (repair of hunt finding F10): [listed] =
+     the free names whose object is that of [n]; freeing appends [n] only if none is listed, fixing
+     removes all of them. *)
+  Definition cell_eqb (s : state) (i : name) (c : Z) : bool :=
+    match dget i (vars s) with Some c' => Z.eqb c' c | None => false end.
   Definition set_fix (n : name) (value : option V) (vb : V) (unfix : bool) (s : state) : state :=
+    match dget n (vars s) with
+    | None => s
+    | Some c =>
+      let h1 := match value with
+                | None => heap s
+                | Some v => hset_val c (if smem n (bnd s) then vb else v) (heap s)
+                end in
+      let t := if unfix
+               then match filter (fun i => cell_eqb s i c) (trainable s) with
+                    | [] => trainable s ++ [n]
+                    | _ :: _ => trainable s
+                    end
+               else filter (fun i => negb (cell_eqb s i c)) (trainable s) in
+      set_train t (set_heap (hset_flag c unfix h1) s)
+    end.
+  (* the code before that repair: bookkeeping by name only *)
+  Definition set_fix_old (n : name) (value : option V) (vb : V) (unfix : bool) (s : state) : state :=
     match dget n (vars s) with
     | None => s
     | Some c =>
@@ -178,6 +200,14 @@ Section Model.
       else collect t vs gs tmp heads
     end.
 
+  (* The loop over name_list[1:]: a free member leaves the free list; a member that is not free
+     takes the head out of the free list and - repair of hunt finding F6 - at that moment its value is
+     assigned to the head's object (the group is fixed at the fixed member's value). *)
+  Definition copy_val (src dst : name) (s : state) : state :=
+    match read s src with Some v => write dst v s | None => s end.
+  Definition sr_step (h : name) (ts : list name * state) (n : name) : list name * state :=
+    if smem n (fst ts) then (lremove n (fst ts), snd ts)
+    else (lremove h (fst ts), if smem h (fst ts) then copy_val n h (snd ts) else snd ts).
   Definition same_real (l0 : list name) (s : state) : state :=
     let l := filter (fun i => dmem i (vars s)) l0 in
     match l with
@@ -186,19 +216,30 @@ Section Model.
       match dget h (vars s) with
       | None => s
       | Some c =>
-        let t := fold_left (fun t n => if smem n t then lremove n t else lremove h t) rest (trainable s) in
-        let vs := fold_left (fun vs n => dset n c vs) l (vars s) in
-        set_vars vs (set_train t s)
+        let ts := fold_left (sr_step h) rest (trainable s, s) in
+        let vs := fold_left (fun vs n => dset n c vs) l (vars (snd ts)) in
+        set_vars vs (set_train (fst ts) (snd ts))
       end
     end.
 
+  (* cplx=True: every member of the (merged) group that is a complex parameter takes the polar flag
+     of the first name whose cells are kept (repair of hunt finding F7) *)
+  Definition align_flags (newl nl : list name) (d : list (name * bool)) : list (name * bool) :=
+    match newl with
+    | [] => d
+    | h :: _ => match dget h d with
+                | Some f => fold_left (fun d i => if dmem i d then dset i f d else d) nl d
+                | None => d
+                end
+    end.
   Definition set_same (ns : list name) (cx : bool) (s : state) : state :=
     let '(gs, tmp, heads) := collect ns (vars s) (same s) [] [] in
     let newl := heads ++ filter (fun i => negb (smem i tmp)) ns in
     let nl := fold_left (fun acc i => ladd i acc) tmp ns in
     let s1 := set_groups gs s in
     let s2 := if cx then same_real (map ni newl) (same_real (map nr newl) s1) else same_real newl s1 in
-    set_groups (same s2 ++ [nl]) s2.
+    let s3 := if cx then set_cplx (align_flags newl nl (cplx s2)) s2 else s2 in
+    set_groups (same s3 ++ [nl]) s3.
 
   (* ---- set / set_all (variable.py:580, 684); [vb] = Bound.get_x2y(value) ---- *)
   Definition set_v (n : name) (v vb : V) (vif : bool) (s : state) : state :=
@@ -254,24 +295,28 @@ Section Model.
 
   (* std_polar (variable.py:727): xy2rp, then if r < 0: r := |r|, p := p + pi.  The decision and
      the two new values are oracle ([flip = Some (|r|, p+pi)] iff the code saw r < 0). *)
-  Definition std_polar (n : name) (o : V * V) (flip : option (V * V)) (s : state) : state :=
+  Definition std_polar_mid (n : name) (o : V * V) (flip : option (V * V)) (s : state) : state :=
     let s1 := conv true n o s in
     match flip with
     | None => s1
     | Some (r', p') => write (ni n) p' (write (nr n) r' s1)
     end.
-  Definition std_polar_all (o : list (name * ((V * V) * option (V * V)))) (s : state) : state :=
-    fold_left (fun s n => match dget n o with Some x => std_polar n (fst x) (snd x) s | None => s end)
+  (* ... and finally p := _std_polar_angle(p), the phase brought into [-pi, pi) (repair of hunt
+     finding F1: the result used to be discarded); [pw] = the assigned value (oracle) *)
+  Definition std_polar (n : name) (o : V * V) (flip : option (V * V)) (pw : V) (s : state) : state :=
+    write (ni n) pw (std_polar_mid n o flip s).
+  Definition std_polar_all (o : list (name * (((V * V) * option (V * V)) * V))) (s : state) : state :=
+    fold_left (fun s n => match dget n o with Some x => std_polar n (fst (fst x)) (snd (fst x)) (snd x) s | None => s end)
               (map fst (cplx s)) s.
   (* standard_complex (variable.py:752): only polar parameters without constraints on their
      component names (a cplx=True tie stores the complex name, so it does not count). *)
   Definition has_constrains (k : name) (s : state) : bool :=
     existsb (fun g => smem (nr k) g || smem (ni k) g) (same s) || smem (nr k) (bnd s) || smem (ni k) (bnd s).
-  Definition standard_complex (o : list (name * ((V * V) * option (V * V)))) (s : state) : state :=
+  Definition standard_complex (o : list (name * (((V * V) * option (V * V)) * V))) (s : state) : state :=
     fold_left (fun s n =>
                  match dget n (cplx s) with
                  | Some true => if has_constrains n s then s
-                                else match dget n o with Some x => std_polar n (fst x) (snd x) s | None => s end
+                                else match dget n o with Some x => std_polar n (fst (fst x)) (snd (fst x)) (snd x) s | None => s end
                  | _ => s
                  end) (map fst (cplx s)) s.
 
@@ -335,9 +380,9 @@ Section Model.
   | Refresh (o : list (name * V))
   | Conv (target : bool) (n : name) (o : V * V)              (* rp2xy (false) / xy2rp (true) *)
   | ConvAll (target : bool) (ns : list name) (o : list (name * (V * V)))
-  | StdPolar (n : name) (o : V * V) (flip : option (V * V))
-  | StdPolarAll (o : list (name * ((V * V) * option (V * V))))
-  | StandardComplex (o : list (name * ((V * V) * option (V * V))))
+  | StdPolar (n : name) (o : V * V) (flip : option (V * V)) (pw : V)
+  | StdPolarAll (o : list (name * (((V * V) * option (V * V)) * V)))
+  | StandardComplex (o : list (name * (((V * V) * option (V * V)) * V)))
   | RemoveVar (n : name)
   | RenameVar (a b : name) (cx : bool).
 
@@ -356,7 +401,7 @@ Section Model.
     | Refresh o => refresh o s
     | Conv t n o => conv t n o s
     | ConvAll t ns o => conv_all t ns o s
-    | StdPolar n o f => std_polar n o f s
+    | StdPolar n o f pw => std_polar n o f pw s
     | StdPolarAll o => std_polar_all o s
     | StandardComplex o => standard_complex o s
     | RemoveVar n => remove_var n s
@@ -370,7 +415,7 @@ Section Model.
   Definition value_op (o : op) : bool :=
     match o with
     | SetV _ _ _ _ | SetAllDict _ _ | SetAllList _ _ | Refresh _ | Conv _ _ _ | ConvAll _ _ _
-    | StdPolar _ _ _ | StdPolarAll _ | StandardComplex _ | SetBound _ | RemoveBound => true
+    | StdPolar _ _ _ _ | StdPolarAll _ | StandardComplex _ | SetBound _ | RemoveBound => true
     | _ => false
     end.
   (* bulk / random operations that must not touch a fixed parameter *)
@@ -387,10 +432,10 @@ Section Model.
     | Some c => forallb (fun m => String.eqb m n ||
                    match dget m (vars s) with Some c' => negb (Z.eqb c c') | None => true end) (trainable s)
     end.
-  (* operations under which "NoDup trainable / one trainable name per cell" is proved *)
+  (* operations under which "NoDup trainable / one trainable name per cell" is proved (freeing a tied
+     name needs no side condition any more: set_fix looks at the shared object) *)
   Definition count_safe (s : state) (o : op) : bool :=
     match o with
-    | SetFix n _ _ true => unfix_safe s n
     | RenameVar _ _ _ | RemoveVar _ => false
     | _ => true
     end.
@@ -421,17 +466,14 @@ Section Model.
         nodupb ns && forallb (fun n => dmem n (vars s) && negb (is_component n s)) ns
         && (let '(_, _, heads) := collect ns (vars s) (same s) [] [] in Nat.leb (List.length heads) 1)
     | SetSame ns true =>
-        (* distinct untied complex parameters in the same coordinates *)
+        (* distinct untied complex parameters (in any coordinates: the flags are aligned by the tie) *)
         nodupb ns && forallb (fun n => untied_cplx n s) ns
-        && forallb (fun n => match dget n (cplx s), dget (hd n ns) (cplx s) with
-                             | Some f, Some f' => Bool.eqb f f' | _, _ => false end) ns
     | ShareR _ _ => false
     | RemoveVar n => if dmem n (cplx s) then untied_cplx n s else untied_real n s
     | RenameVar a b false => untied_real a s && fresh_name b s
     | RenameVar a b true => untied_cplx a s && fresh_name b s && fresh_name (nr b) s && fresh_name (ni b) s
     | AddReal n _ _ _ => fresh_name n s
     | AddComplex n _ _ _ _ => fresh_name n s && fresh_name (nr n) s && fresh_name (ni n) s
-    | SetFix n _ _ true => unfix_safe s n
     | _ => true
     end.
 End Model.
